@@ -188,6 +188,13 @@ def main():
             cov["discharged"] = len(stmts) if rc == 0 else 0
         else:
             cov["discharged"] = 0
+        if tier == "thorough" and info is not None and not problems:
+            # independent re-check of the compiled closure of Props/<pid>.vo (coqchk), with its axiom summary
+            rc2, out2 = B.sh(f"timeout 3000 coqchk -silent -o -Q Model Tealer -Q Gen Tealer -Q Spec Tealer -Q Lemmas Tealer -Q Props Tealer Tealer.{pid} 2>&1", cwd=COQ, timeout=3100)
+            summ = out2[out2.find("CONTEXT SUMMARY"):] if "CONTEXT SUMMARY" in out2 else out2[-1500:]
+            cov["coqchk"] = {"rc": rc2, "summary": summ[-2500:]}
+            if rc2 != 0:
+                broken.append(f"coqchk:Props/{pid}.vo")
         cov["checker_cmd"] = "coq_makefile -f _CoqProject -o Makefile && make (coqc 8.16.1, full .vo build); coqc Props/%s.v for Print Assumptions" % pid
         cov["trusted_base"] = propdefs.TRUSTED_BASE + P.get("trusted_extra", [])
         cov["samples"] = [f"{f}:{n}" for f, n in stmts if f.startswith("Props/")][:12]
